@@ -222,13 +222,13 @@ def run_case(case):
     for _ in range(3 if edges else 0):
         d, b = rng.choice(edges)
         p = {'layers': {
-            d: {rng.choice(['setUp', 'tearDown']):
+            d: {rng.choice(['setUp', 'tearDown', 'tearDown']):
                 'raise:' + rng.choice(['ValueError', 'KeyError'])},
             b: {'tearDown': rng.choice(['nie', 'nie', 'raise:OSError'])}}}
         chain.append(('chain', p, True))
     plans = plans[:1] + rng.sample(plans[1:], min(len(plans) - 1,
                                                   case['budget'])) + \
-        chain[:max(1, case['budget'] // 4)] if chain else \
+        chain[:max(3, case['budget'] // 4)] if chain else \
         plans[:1] + rng.sample(plans[1:], min(len(plans) - 1,
                                               case['budget']))
     viol = []
@@ -345,6 +345,8 @@ def run_case(case):
                     sigs.append([common.shape_of(spec), plan, sorted(modes)])
             if intended_bad:
                 C('bad_plans')
+            if label == 'chain':
+                C('base_edge_fault_plans')
             if plan.get('_repeat'):
                 C('repeat_plans')
                 if any('kinds_seq' in (t or {}) for t in
